@@ -207,6 +207,17 @@ structure P1 where
   ce : List ScimEntry
   refresh : Bool
 
+/-- the `(from_state, sync_cookie)` match of phase 1 -/
+def stateOk : SyncState → Option Nat → Bool
+  | .refresh, _ => true
+  | .active c, some sc => !phase1CookieMismatch c sc
+  | .active _, none => false
+
+/-- `matches!(&changes.from_state, ScimSyncState::Refresh)` -/
+def isRefresh : SyncState → Bool
+  | .refresh => true
+  | .active _ => false
+
 /-- `scim_sync_apply_phase_1` -/
 def phase1 (id : Ident) (st : State) (req : Request) : Except Err P1 :=
   if phase1OriginDenied (originCode id.origin) then .error .accessDenied
@@ -220,17 +231,12 @@ def phase1 (id : Ident) (st : State) (req : Request) : Except Err P1 :=
         match st.find? (fun e => e.uuid == su && !e.masked) with
         | none => .error .noMatchingEntries
         | some se =>
-          let stateOk : Bool :=
-            match req.fromState, se.cookie with
-            | .refresh, _ => true
-            | .active c, some sc => !phase1CookieMismatch c sc
-            | .active _, none => false
-          if !stateOk then .error .invalidSyncState
+          if !stateOk req.fromState se.cookie then .error .invalidSyncState
           else
             .ok { syncUuid := su
                   authority := se.yieldAuth.getD []
                   ce := changeEntries req.entries
-                  refresh := (match req.fromState with | .refresh => true | _ => false) }
+                  refresh := isRefresh req.fromState }
 
 /-! ### phase 2 -/
 
